@@ -862,7 +862,15 @@ func (s *Script) appendOp(o *op, left, right any) (pb *precBuf) {
 		pb.buf = append(pb.buf, ' ')
 		pb.buf = append(pb.buf, o.name...)
 		pb.buf = append(pb.buf, ' ')
-		pb.buf = s.appendValue(pb.buf, right, o.prec)
+		if rb, ok := right.(*precBuf); ok && rb.prec == o.prec {
+			// The parser is left associative: a right operand of the same
+			// precedence keeps its meaning only inside parentheses.
+			pb.buf = append(pb.buf, '(')
+			pb.buf = append(pb.buf, rb.buf...)
+			pb.buf = append(pb.buf, ')')
+		} else {
+			pb.buf = s.appendValue(pb.buf, right, o.prec)
+		}
 	}
 	return
 }
